@@ -117,7 +117,9 @@ def gen_seeding(r, K):
 
 
 def rand_op(r, k):
-    c = r.below(15)
+    c = r.below(16)
+    if c == 15:
+        return "shuffle %d %d" % (k, r.choice([0, 1, 2, 3, 8, 9, 64, 501]))
     if c == 12:
         return "sphere %d %d" % (k, r.choice([1, 2, 3, 4, 5, 7, 16, 64]))
     if c == 13:
@@ -319,6 +321,9 @@ def oracle_rng(lines, out, pairs=()):
             rad = core.bits2f(t[3]) if t[0] == "ball" else 1.0
             if (t[0] == "sphere" and abs(n2 - 1.0) > 1e-9) or (t[0] == "ball" and n2 > rad * rad * (1 + 1e-9)):
                 return (i, "%s returned a point of norm^2 %r" % (ln, n2))
+        if t[0] == "shuffle" and len(t) == 3 and o.startswith("perm"):
+            if sorted(map(int, o.split()[1:])) != list(range(int(t[2]))):
+                return (i, "shuffle of 0..%s-1 did not return a permutation" % t[2])
         if t[0] == "getseed" and len(t) == 1 and last_set is not None and o != "first=%d" % last_set:
             return (i, "getSeed() reports %r after setSeed(%d)" % (o, last_set))
     for a, b in pairs:
@@ -465,6 +470,11 @@ def judge_planner_pair(ck, plain, job, ra, rb, excluded=False):
         ck.count("excluded-planner-diverged:" + pl)
         return True
     record = {"engine": "rng", "kind": "planner-divergence", "planner": pl}
+    if pl == "SPARSdb:addpath":
+        # two recorded defects meet here; tell them apart: F201 (std::random_device) makes even two runs in the SAME
+        # configuration differ, F202 (GNAT orders exact distance ties by element address) needs a different heap layout
+        again = run_plan(ck, plain, job, 0)
+        record["same_configuration_diverges"] = again["result"] != ra["result"]
     if ck.known_finding(record) is not None:
         ck.report(record)          # prints KNOWN-FINDING once, counts the occurrence; no replay
         return False
